@@ -1114,7 +1114,10 @@ static int ec_at(char *loc, char *cmd, char *arg, char *txt)
 		sbuf_free(r);
 		return ret;
 	}
-	return ex_command(buf);
+	buf = uc_dup(buf);
+	beg = ex_command(buf);
+	free(buf);
+	return beg;
 }
 
 static int ec_source(char *loc, char *cmd, char *arg, char *txt)
